@@ -2,6 +2,8 @@ import BindgenModel.Model.Util
 import BindgenModel.Model.Link
 import BindgenModel.Model.Lower
 import BindgenModel.Model.Names
+import BindgenModel.Model.FnSig
+import BindgenModel.Generated.FnSigGuards
 /-! Line protocol for C04 (first token `c04` already removed).
 
 * `ni <cc> <canon-hex> <mangled-hex>` → `1` / `0`                   (cc: `var`, `unknown`, or an ABI keyword)
@@ -10,6 +12,9 @@ import BindgenModel.Model.Names
   (`-` = absent / empty; `cname` = the name after the renaming callbacks, before `rust_mangle`)
   → `F:<ident>:<attr>:<symbol>,…|V:<ident>:<attr>:<symbol>,…` (emission order; attr = `none`, `raw.<hex>`, `plain.<hex>`)
 * `lower p<0|1> <term>` / `lower r<0|1> <term>` → shape of the emitted Rust type
+* `sig decl=<0|1> targs=<n|-> cur=<m> kids=<k> tycc=<n> pcc=<n|-> same=<0|1>` → `types=<ids> cc=<n>`: parameter types of one
+  function type (`1xx` = i-th prototype type, `2xx` = type of the i-th cursor argument, `3xx` = of the i-th `ParmDecl` child) and its
+  calling convention (`100` = invalid), computed with the guards found in the source
 * `abi ovs=<abi.0|1,…> clang=<abi|unknown> feats=<f,…> variadic=<0|1>` → ABI keyword, `unsupported` or `unknown`
 -/
 namespace BindgenModel.Driver.C04
@@ -203,8 +208,27 @@ def handleAbi (toks : List String) : String :=
     | some (.known a) => String.ofList (Abi.display a)
   | _, _ => "bad-abi"
 
+def natKV (toks : List String) (k : String) : Option Nat := (kv toks k).bind String.toNat?
+
+def handleSig (toks : List String) : String :=
+  let mk := fun (base n : Nat) => (List.range n).map fun i => ((none : Option String), base + i)
+  let targs : Option (List Nat) := match kv toks "targs" with
+    | some "-" => none
+    | some s => s.toNat?.map fun n => (List.range n).map (100 + ·)
+    | none => none
+  match natKV toks "cur", natKV toks "kids", natKV toks "tycc" with
+  | some cur, some kids, some tycc =>
+    let site : FnSig.Site := { typeArgs := targs, declLike := kv toks "decl" == some "1", cursorArgs := mk 200 cur, parmChildren := mk 300 kids }
+    let guardedArgs := fnSigCursorArgsGuard && fnSigChildrenGuard
+    let tys := (FnSig.args guardedArgs site).map (·.2)
+    let pointee : Option (Nat × Bool) := (natKV toks "pcc").map fun c => (c, kv toks "same" == some "1")
+    let cc := FnSig.callConv fnSigSameLevelGuard 100 tycc pointee
+    s!"types={",".intercalate (tys.map toString)} cc={cc}"
+  | _, _, _ => "bad-sig"
+
 def handle (toks : List String) : String :=
   match toks with
+  | "sig" :: rest => handleSig rest
   | "ni" :: cc :: c :: m :: _ =>
     match ccOfString cc, hexName c, hexName m with
     | some cc, some c, some m => if namesIdentical c m cc then "1" else "0"
